@@ -3,6 +3,7 @@ package main
 // String and slice helper semantics.
 
 import (
+	"fmt"
 	"go/types"
 	"math/big"
 )
@@ -86,6 +87,9 @@ func flattenRope(s StrV) []StrV {
 	var out []StrV
 	var rec func(s StrV)
 	rec = func(s StrV) {
+		if s.Rope == nil && s.Conc == nil && s.Arr == nil && s.Spec == "" && s.ID == nil {
+			return // the empty string
+		}
 		if s.Rope != nil {
 			for _, p := range s.Rope {
 				rec(p)
@@ -137,14 +141,20 @@ func (c *Ctx) strLen(st *State, s StrV) *Term {
 			return c.idx(1)
 		case "ite":
 			return Ite(s.SArgs[0].(*Term), c.strLen(st, s.SArgs[1].(StrV)), c.strLen(st, s.SArgs[2].(StrV)))
-		case "itoa":
-			n := s.SArgs[0].(*Term)
-			if !c.BV {
-				// digits(n) as a spec-level uninterpreted function with the facts we need: >= 1
-				l := App("itoa_len", IntSort, n)
-				st.assume(Cmp(">=", l, IntC(1), true))
-				return l
+		case "itoa", "fmt", "runestr":
+			// the length of a rendered number / formatted piece is an uninterpreted function of its arguments
+			var ts []*Term
+			for _, a := range s.SArgs {
+				switch x := a.(type) {
+				case *Term:
+					ts = append(ts, x)
+				case StrV:
+					ts = append(ts, c.strID(st, x))
+				}
 			}
+			l := App("strlen."+s.Spec+"."+c.modeTag()+fmt.Sprint(len(ts)), c.IntSort(), ts...)
+			st.assume(Cmp(">=", l, c.idx(0), true))
+			return l
 		}
 		unsupported("length of special string %s", showValue(s))
 	}
@@ -290,6 +300,30 @@ func (c *Ctx) ropeEq(st *State, a, b StrV) (*Term, bool) {
 				return nil, false
 			}
 			x, y := pa[i], pb[j]
+			// string(rune(x)) against the single byte chr(y): equal exactly when x is ASCII and is that byte
+			if (x.Spec == "runestr" && y.Spec == "chr") || (x.Spec == "chr" && y.Spec == "runestr") {
+				rs, ch := x, y
+				if x.Spec == "chr" {
+					rs, ch = y, x
+				}
+				rt := rs.SArgs[0].(*Term)
+				bt := ch.SArgs[0].(*Term)
+				lo := NumC(big.NewInt(0), rt.Sort)
+				hi := NumC(big.NewInt(128), rt.Sort)
+				var low8 *Term
+				if rt.Sort.Kind == SBV {
+					low8 = BVResize(rt, 8, false)
+				} else {
+					low8 = rt
+				}
+				if bt.Sort != low8.Sort {
+					return nil, false
+				}
+				cs = append(cs, Cmp(">=", rt, lo, true), Cmp("<", rt, hi, true), Eq(low8, bt))
+				i++
+				j++
+				continue
+			}
 			if x.Spec != "" && x.Spec == y.Spec && len(x.SArgs) == len(y.SArgs) {
 				ok := true
 				var ps []*Term
